@@ -59,7 +59,17 @@ bridgeauth = "bridge1"
 
 var c20Store *raftstore.LevelDBStore
 
+var c20FreshStore bool
+var c20StoreSeq int
+
 func c20NewFixture(t *testing.T, dir string) *c20Fixture {
+	if c20FreshStore && c20Store != nil {
+		// store operations are part of the pair: every execution gets a freshly opened store (state that
+		// is only initialised lazily after open must be exercised concurrently, too)
+		c20Store.Close()
+		c20Store = nil
+		c20StoreSeq++
+	}
 	f := &c20Fixture{fsm: &FSM{lastSnapshotState: make(map[uint64][]byte)}}
 	f.srv = ircserver.VerifNewServer()
 	f.spare = ircserver.VerifNewServer()
@@ -69,7 +79,7 @@ func c20NewFixture(t *testing.T, dir string) *c20Fixture {
 	}
 	f.o = o
 	if c20Store == nil {
-		st, err := raftstore.NewLevelDBStore(dir+"/c20store", false, true)
+		st, err := raftstore.NewLevelDBStore(fmt.Sprintf("%s/c20store%d", dir, c20StoreSeq/50), false, true)
 		if err != nil {
 			t.Fatal(err)
 		}
@@ -335,6 +345,7 @@ func TestVerifC20(t *testing.T) {
 		}
 		res.Pairs++
 		racy := false
+		c20FreshStore = strings.HasPrefix(ops[p.x].Name, "LevelDBStore") || strings.HasPrefix(ops[p.y].Name, "LevelDBStore")
 		st := vsync.Explore(bound, 20000, deadline, func(s *vsync.Sched) {
 			f := c20NewFixture(t, dir)
 			before := runtime.RaceErrors()
